@@ -755,49 +755,29 @@ class ExcelInPython:
 
 
     def _search(self, find_text: str, within_text: str, start_num: int | None):
-        start_num = start_num if start_num else 1
-        if start_num and (start_num > len(within_text) or start_num <= 0):
+        start_num = 1 if start_num is None else start_num
+        if start_num > len(within_text) or start_num <= 0:
             return '#VALUE!'
 
-        pattern = r'([^~][?*]|^[?*])'
-        if len(re.findall(pattern, find_text)) == 0:
-            find_text = find_text.replace('~?', '?') \
-                .replace('~*', '*')
+        # ? - любой символ, * - любая последовательность, ~ отменяет действие следующего ? * ~;
+        # все остальные символы ищутся буквально, регистр не учитывается
+        pattern, index = '', 0
+        while index < len(find_text):
+            char = find_text[index]
+            if char == '~' and index + 1 < len(find_text) and find_text[index + 1] in '?*~':
+                index += 1
+                pattern += re.escape(find_text[index])
+            elif char == '?':
+                pattern += '.'
+            elif char == '*':
+                pattern += '.*?'
+            else:
+                pattern += re.escape(char)
+            index += 1
 
-            result = within_text.find(find_text, start_num - 1) + 1
-            return result if result else '#VALUE!'
+        found = re.compile(pattern, re.I | re.S).search(within_text, start_num - 1)
 
-        find_text = find_text \
-            .replace('?', '(.)') \
-            .replace('*', '(.*)') \
-            .replace('~(.*)', r'\*') \
-            .replace('~(.)', r'\?')
-
-        result = re.finditer(find_text, within_text, re.I)
-
-        if result is None:
-            return '#VALUE!'
-
-        find_elem = None
-        for i in result:
-            if i.span(0)[0] + 1 < start_num:
-                continue
-            find_elem = i
-            break
-        # исключаем поиск по regex вроде \d
-        if find_elem:
-            sequences = find_elem.groups(0)
-            found_text = find_elem.group(0)
-            find_text = find_text.replace('(.*)', '(.)') \
-                                 .replace(r'\?', '?') \
-                                 .replace(r'\.', '.')
-            for sequence in sequences:
-                find_text = find_text.replace('(.)', sequence, 1)
-    
-            if found_text.lower() != find_text.lower():
-                return '#VALUE!'
-            
-        return find_elem.span(0)[0] + 1 if find_elem else '#VALUE!'
+        return found.start() + 1 if found else '#VALUE!'
 
     def _excel_value_to_string(self, value: Any):
         if isinstance(value, (datetime.datetime)):
